@@ -650,7 +650,7 @@ theorem exec_delta {nt : Nat} (s : St) (op : Op) (h : MInv nt s) (hd : DInv s) :
         have h' : MInv nt { s with cbs := rest } := ⟨h.notary, h.neoC, h.cur, h.snap⟩
         have hd'' : DInv { s with cbs := rest } := ⟨hd.cur, hd.snap⟩
         exact DInv.fin h' hd'' s.cur f.d1 f.d2 h.cur (Step.refl _)
-  | transfer t src dst amt caller recv data =>
+  | transfer t src dst amt caller dk data =>
     simp only [exec]
     split
     · exact hd
@@ -680,7 +680,7 @@ theorem exec_delta {nt : Nat} (s : St) (op : Op) (h : MInv nt s) (hd : DInv s) :
           have e1 : (0 : Int) + (if t = Tok.gas ∧ dst = nt then amt else 0) - (if t = Tok.gas ∧ src = nt then amt else 0) =
               (if t = .gas ∧ dst = nt then amt else 0) := by simp [hsrc]
           rw [e1] at hl; exact hl
-        exact afterPosted_delta s t l src dst amt recv data d1 d2 h hd hl' ha st
+        exact afterPosted_delta s t l src dst amt (recvOf s.env dst dk) data d1 d2 h hd hl' ha st
   | vote acc pub caller =>
     simp only [exec]
     split
@@ -724,7 +724,7 @@ theorem exec_delta {nt : Nat} (s : St) (op : Op) (h : MInv nt s) (hd : DInv s) :
     split
     · exact hd
     · exact hd.done _ _ (lockDeposit_step _ _ _ _ _)
-  | withdraw src dst caller recv =>
+  | withdraw src dst caller =>
     simp only [exec]
     split
     · exact hd
@@ -747,7 +747,7 @@ theorem exec_delta {nt : Nat} (s : St) (op : Op) (h : MInv nt s) (hd : DInv s) :
                 (if Tok.gas = Tok.gas ∧ s.env.notary = nt then amt else 0) =
                 (if Tok.gas = Tok.gas ∧ dst.getD src = nt then amt else 0) := by simp [h.notary]; omega
             rw [e1] at hl'; exact hl'
-          exact afterPosted_delta s .gas l' s.env.notary (dst.getD src) amt recv .other d1 d2 h hd hl'' ha (s1.trans s2)
+          exact afterPosted_delta s .gas l' s.env.notary (dst.getD src) amt (recvOf s.env (dst.getD src) .null) .other d1 d2 h hd hl'' ha (s1.trans s2)
   | setGpb gas caller =>
     simp only [exec]
     split
@@ -804,7 +804,9 @@ theorem step_delta {nt : Nat} (s : St) (op : Op) (h : MInv nt s) (hd : DInv s) :
   unfold step
   split
   · split
-    · exact ⟨hd.cur, hd.snap⟩
+    · split
+      · exact ⟨hd.cur, hd.snap⟩
+      · exact hd
     · exact ⟨hd.cur, hd.snap⟩
     · exact hd
   · split
